@@ -158,6 +158,20 @@ class SwitchVector(Vector):
     set_message_class = message.SetSwitchVector
     new_message_class = message.NewSwitchVector
 
+    def _refresh_elements(self):
+        # Reading a switch raises its Read event, and a handler refreshing it
+        # (reset_value) changes its siblings through the rule. Let every
+        # handler run before the first element is rendered, otherwise the
+        # message shows siblings as they were before the rule was applied.
+        for element in self._elements.values():
+            if element.enabled:
+                element.value
+
+    def to_set_message(self) -> Optional[message.SetVector]:
+        if self.enabled:
+            self._refresh_elements()
+        return super().to_set_message()
+
     @property
     def selected_value(self):
         res = self.selected_values
@@ -234,6 +248,7 @@ class SwitchVector(Vector):
                 timestamp=message.now(),
             )
 
+        self._refresh_elements()
         elements = [e.to_def_message() for k, e in self._elements.items() if e.enabled]
         return self.def_message_class(
             device=self.device.name,
